@@ -10,6 +10,7 @@
  */
 #ifndef VF_H
 #define VF_H
+#include <errno.h>
 #include <complex.h>
 #include <stddef.h>
 #include <stdint.h>
@@ -76,7 +77,9 @@ typedef struct vf_errlog {
     char msg[VF_ERRLOG_MAX][160];
     int bad_format;		/* message contained a newline / was empty */
 } vf_errlog;
-extern void vf_errfn(const char *message, void *arg, int category);
+extern /* errno value the callback leaves behind (never produced by libvna) */
+#define VF_ERRFN_ERRNO EXDEV
+void vf_errfn(const char *message, void *arg, int category);
 extern void vf_errlog_reset(vf_errlog *l);
 
 /* deterministic value generation */
